@@ -148,6 +148,11 @@ func CheckCall(sc *Scenario, v *CallView, rs RuleSet, em int) []Violation {
 					add("local-changed-by-other-execution", "method-on-local", fmt.Sprintf("%s: rule %d keeps its own object (%d) in local lo, the method call reached object %d", c, x.Rule, x.Rule+500, e.C))
 				}
 			}
+			if e.Kind == EvAlias && e.C&2 != 0 {
+				add("local-update-changed-injected-data", "", fmt.Sprintf("%s: rule %d copied an injected field / element into a local and updated the local; the injected value changed with it", c, x.Rule))
+			} else if e.Kind == EvAlias && e.C&1 != 0 {
+				add("local-changed-by-other-execution", "copied-from-injected", fmt.Sprintf("%s: rule %d: a local copied from an injected value and updated in place does not hold its own result", c, x.Rule))
+			}
 			if e.Kind == EvKey && e.C != int64(x.Rule)+700 {
 				add("local-changed-by-other-execution", "forRange-key", fmt.Sprintf("%s: rule %d iterates its own one-entry map (key %d) and its loop body saw key %d", c, x.Rule, x.Rule+700, e.C))
 			}
